@@ -111,6 +111,14 @@ Theorem hash_input_injective : forall a b : name, Forall comp_wf a -> Forall com
 Proof. exact name_hash_input_inj. Qed.
 Print Assumptions hash_input_injective.
 
+(* The layout the harness compares byte for byte with what the real HashInto writes into a recording hash.Hash:
+   16 header bytes (8-byte big-endian type, 8-byte big-endian value length) followed by the value. *)
+Theorem hash_input_layout : forall c,
+  comp_hash_input c = comp_hash_header (ctyp c) (N.of_nat (length (cval c))) ++ cval c /\
+  length (comp_hash_header (ctyp c) (N.of_nat (length (cval c)))) = 16%nat.
+Proof. exact (fun c => conj (comp_hash_input_header c) eq_refl). Qed.
+Print Assumptions hash_input_layout.
+
 (* The value length in the hash input is needed: the input used before the /repo fix (type then raw value) is the same
    for /%00%00%00%00%00%00%00%08 and // — on the real code the Content Store then answered an Interest for the first
    name with the Data of the second (docs/C14.md, corpus/C14). *)
